@@ -100,7 +100,10 @@ def c17(tier: str) -> int:
 
 FORMS = ['cat', 'Cat', 'CAT', 'cát', 'cats', 'Cats', 'résumé', 'resume', 'Resume', 'ice cream',
          'Ice Cream', '猫', 'ﬁsh', 'fish', 'Fishes', 'bake', 'baked', 'bakes', 'es', 's', 'Ångström',
-         'angstrom', 'naïve', 'naive', 'NAÏVE']
+         'angstrom', 'naïve', 'naive', 'NAÏVE',
+         # forms stored in decomposed spelling (not NFC) next to their composed twins, and a
+         # character that NFC itself decomposes: a form is searched as it is written
+         'cafe\u0301', 'caf\u00e9', 'A\u030angstro\u0308m', '\u0958a']
 NEAR = ['ca', 'catt', 'cat ', 'ｃａｔ', 'résume', '!Cat', '!fish', 'icecream', 'ice  cream', '', 'Ⅳ']
 
 
